@@ -13,26 +13,46 @@ fn byte(pat: &str, i: usize) -> u8 {
     }
 }
 
-fn one<N>(n: usize, prec: i64, upper: bool, pat: &str, out: &mut dyn Write)
+fn one<N>(n: usize, prec: i64, upper: bool, pat: &str, spec: &str, out: &mut dyn Write)
 where
     N: ArrayLength + Add<N>,
     Sum<N, N>: ArrayLength,
 {
     use generic_array::sequence::GenericSequence;
     let a: Box<GenericArray<u8, N>> = Box::<GenericArray<u8, N>>::generate(|i| byte(pat, i));
-    let s = match (prec < 0, upper) {
-        (true, false) => format!("{:x}", *a),
-        (true, true) => format!("{:X}", *a),
-        (false, false) => format!("{:.1$x}", *a, prec as usize),
-        (false, true) => format!("{:.1$X}", *a, prec as usize),
+    let w = 2 * n + 5;
+    let p = prec.max(0) as usize;
+    let s = match (spec, prec < 0, upper) {
+        ("", true, false) => format!("{:x}", *a),
+        ("", true, true) => format!("{:X}", *a),
+        ("", false, false) => format!("{:.1$x}", *a, p),
+        ("", false, true) => format!("{:.1$X}", *a, p),
+        // width, fill, alignment, sign-aware zero padding and the alternate flag: digits only, nothing else
+        ("w", true, false) => format!("{:1$x}", *a, w),
+        ("w", true, true) => format!("{:1$X}", *a, w),
+        ("w", false, false) => format!("{:1$.2$x}", *a, w, p),
+        ("w", false, true) => format!("{:1$.2$X}", *a, w, p),
+        ("fill", true, false) => format!("{:*^1$x}", *a, w),
+        ("fill", true, true) => format!("{:*^1$X}", *a, w),
+        ("fill", false, false) => format!("{:*<1$.2$x}", *a, w, p),
+        ("fill", false, true) => format!("{:*>1$.2$X}", *a, w, p),
+        ("zero", true, false) => format!("{:01$x}", *a, w),
+        ("zero", true, true) => format!("{:01$X}", *a, w),
+        ("zero", false, false) => format!("{:01$.2$x}", *a, w, p),
+        ("zero", false, true) => format!("{:01$.2$X}", *a, w, p),
+        ("alt", true, false) => format!("{:#x}", *a),
+        ("alt", true, true) => format!("{:#X}", *a),
+        ("alt", false, false) => format!("{:#.1$x}", *a, p),
+        ("alt", false, true) => format!("{:#.1$X}", *a, p),
+        _ => panic!("HARNESS: hex spec {}", spec),
     };
     let codes: Vec<String> = s.bytes().map(|b| b.to_string()).collect();
-    writeln!(out, "{{\"ev\":\"hex\",\"n\":{},\"prec\":{},\"upper\":{},\"pat\":\"{}\",\"out\":[{}]}}", n, prec, upper, pat, codes.join(",")).unwrap();
+    writeln!(out, "{{\"ev\":\"hex\",\"n\":{},\"prec\":{},\"upper\":{},\"pat\":\"{}\",\"spec\":\"{}\",\"out\":[{}]}}", n, prec, upper, pat, spec, codes.join(",")).unwrap();
 }
 
 macro_rules! dispatch {
-    ($n:expr, $prec:expr, $upper:expr, $pat:expr, $out:expr; $($k:literal => $t:ty),* $(,)?) => {
-        match $n { $( $k => one::<$t>($k, $prec, $upper, $pat, $out), )* _ => panic!("HARNESS: hex length {}", $n) }
+    ($n:expr, $prec:expr, $upper:expr, $pat:expr, $spec:expr, $out:expr; $($k:literal => $t:ty),* $(,)?) => {
+        match $n { $( $k => one::<$t>($k, $prec, $upper, $pat, $spec, $out), )* _ => panic!("HARNESS: hex length {}", $n) }
     };
 }
 
@@ -49,7 +69,8 @@ pub fn run(scn: &str, out: &mut dyn Write) {
         let prec: i64 = f[1].parse().unwrap();
         let upper = f[2] == "1";
         let pat = f[3];
-        dispatch!(n, prec, upper, pat, out;
+        let spec = if f.len() > 4 { f[4] } else { "" };
+        dispatch!(n, prec, upper, pat, spec, out;
             0 => U0, 1 => U1, 2 => U2, 3 => U3, 4 => U4, 5 => U5, 6 => U6, 7 => U7, 8 => U8, 9 => U9, 10 => U10, 11 => U11, 12 => U12,
             13 => U13, 14 => U14, 15 => U15, 16 => U16, 17 => U17, 31 => U31, 32 => U32, 33 => U33, 63 => U63, 64 => U64, 65 => U65,
             255 => U255, 256 => U256, 257 => Sum<U256, U1>, 511 => U511, 512 => U512, 1000 => U1000,
